@@ -574,14 +574,22 @@ func init() {
 		// instance with the same inputs, and the two must agree (no state may survive a Report call)
 		shared, src, serr := mercPlugin(v, jObj(in["cfg"]), jObj(in["codec"]))
 		prev := mercPrev(in["prev"])
+		// the node keeps the previous report in ONE buffer that it overwrites in place with every new report
+		// (a plugin that remembers the slice it was given, not a copy, then compares the buffer with itself)
+		hostBuf := append(make([]byte, 0, 4096), prev...)
 		var out []any
 		var leaks []any
 		for i, r := range jArr(in["rounds"]) {
 			var res any
+			var hostPrev ocrtypes.Report
+			if prev != nil {
+				hostBuf = append(hostBuf[:0], prev...)
+				hostPrev = hostBuf
+			}
 			if serr != nil {
 				res = resErr("config", serr)
 			} else {
-				res = mercRoundOn(shared, src, v, prev, jArr(r))
+				res = mercRoundOn(shared, src, v, hostPrev, jArr(r))
 			}
 			fresh := mercRound(v, jObj(in["cfg"]), jObj(in["codec"]), prev, jArr(r))
 			if string(marshal(stripPrivate(normalise(res)))) != string(marshal(stripPrivate(normalise(fresh)))) {
